@@ -161,6 +161,11 @@ def sin_scale(x, y, z, *, t, omega=1.0, phase=0.0, offset=0.0):
     return offset + math.sin(omega * t + phase)
 
 
+def cos_scale(x, y, z, *, t, omega=1.0, phase=0.0, offset=0.0):
+    """A sibling of sin_scale: another function with exactly the same keyword arguments."""
+    return offset + math.cos(omega * t + phase)
+
+
 def wave_field(x, y, z, *, t, a=1.0, kx=1.0, ky=0.5, w=1.0):
     """A travelling-wave vector potential: depends on position AND time."""
     x = np.atleast_1d(x)
@@ -388,6 +393,8 @@ def build_tree(node, ctx, shared=None, registry=None):
             obj = Scale(pw_scale, times=tuple(node["times"]), values=tuple(node["values"]))
         elif k == "sin":
             obj = Scale(sin_scale, omega=node["omega"], phase=node.get("phase", 0.0), offset=node.get("offset", 0.0))
+        elif k == "cos":
+            obj = Scale(cos_scale, omega=node["omega"], phase=node.get("phase", 0.0), offset=node.get("offset", 0.0))
         elif k == "num":
             obj = int(node["v"]) if node.get("int") else float(node["v"])
         elif k == "gauge":
@@ -470,6 +477,8 @@ def eval_tree(node, ctx, x, y, z, t):
             return _pw_value(t, node["times"], node["values"])
         if k == "sin":
             return sin_scale(x, y, z, t=t, omega=node["omega"], phase=node.get("phase", 0.0), offset=node.get("offset", 0.0))
+        if k == "cos":
+            return cos_scale(x, y, z, t=t, omega=node["omega"], phase=node.get("phase", 0.0), offset=node.get("offset", 0.0))
         if k == "num":
             return int(node["v"]) if node.get("int") else float(node["v"])
         if k == "gauge":
@@ -508,7 +517,7 @@ def _col(v):
 
 def tree_time_dependent(node):
     if "leaf" in node:
-        return node["leaf"] in ("ramp", "pw", "sin", "wave", "wave_xi")
+        return node["leaf"] in ("ramp", "pw", "sin", "cos", "wave", "wave_xi")
     return tree_time_dependent(node["l"]) or tree_time_dependent(node["r"])
 
 
